@@ -46,6 +46,7 @@ func GenWindow(seed uint64, variant int, pool *Pool) *Plan {
 	if rs := core.NewRNG(seed ^ uint64(variant)*0x9e37).Stream("soak"); rs.Chance(1, 40) {
 		s.Soak = 1050 + rs.Intn(700)
 	}
+	s.FarFuture = true
 	kind := windowKinds[variant%3]
 	fi := (variant / 3) % windowFroms
 	ui := (variant / (3 * windowFroms)) % windowUntils
@@ -161,7 +162,7 @@ func init() {
 			return seqCases(master, n, func(int) int { return WindowVariants })
 		},
 		Gen:            func(c Case, pool *Pool) *Plan { return GenWindow(c.Seed, c.Variant, pool) },
-		RequiredProbes: map[string][]string{"quick": {"window_t_eq_from", "window_t_eq_until", "window_t_eq_from_plus_delta", "window_int64_extreme", "soak"}, "thorough": {"window_t_eq_from", "window_t_eq_until", "window_t_eq_from_plus_delta", "window_int64_extreme"}},
+		RequiredProbes: map[string][]string{"quick": {"window_t_eq_from", "window_t_eq_until", "window_t_eq_from_plus_delta", "window_int64_extreme", "soak", "window_anchoring_time_beyond_int64"}, "thorough": {"window_t_eq_from", "window_t_eq_until", "window_t_eq_from_plus_delta", "window_int64_extreme"}},
 		Components:     worldComponents,
 		Assumptions:    worldAssumptions,
 	})
